@@ -532,10 +532,11 @@ impl Db {
 
     pub fn reopen(&mut self, cfg: Cfg) -> Result<(), String> {
         self.close();
-        let d = Db::open_in(self.dir.clone(), cfg)?;
-        let mut d = d;
+        let mut d = Db::open_in(self.dir.clone(), cfg)?;
         self.db = d.db.take();
         self.cfg = cfg;
+        // `d` is only a carrier for the handle: it must not run Db::drop, which removes the directory
+        std::mem::forget(d);
         Ok(())
     }
 
